@@ -25,6 +25,16 @@ def _base(fmt):
 @st.composite
 def hrs_spec(draw, options=True, even_width=True, small=True):
     s = draw(_base("hrs"))
+    if options and draw(st.integers(0, 7)) == 0:
+        # payload of exactly 2^k bytes (k = 8..15): sizes at which block-wise readers and writers change behaviour
+        k = draw(st.integers(8, 15))
+        a = draw(st.integers(0, min(k, 8)))
+        s["w"] = 2 * (1 << a)
+        s["h"] = 1 << (k - a)
+        s["pattern"] = draw(st.sampled_from(["random", "ramp", "runs"]))
+        if draw(st.integers(0, 3)) == 0:
+            s["skip"] = draw(st.integers(0, 40))
+        return s
     if options:
         if draw(st.booleans()):
             if even_width:
@@ -52,6 +62,17 @@ def pix_spec(draw, small=True):
 def max_spec(draw, options=True, width_mult8=True):
     s = {"fmt": "max", "seed": draw(seeds), "pattern": draw(patterns)}
     s["mode"] = draw(st.sampled_from(model.MAX_MODES))
+    if options and draw(st.integers(0, 9)) == 0:
+        # payload of exactly 2^k bytes (k = 8..14)
+        k = draw(st.integers(8, 14))
+        a = draw(st.integers(0, min(k, 6)))
+        s["cols"] = 8 * (1 << a)
+        if draw(st.booleans()):
+            s["rows"] = 1 << (k - a)
+        else:
+            s["rows_opt"] = 1 << (k - a)
+        s["pattern"] = draw(st.sampled_from(["random", "ramp", "runs"]))
+        return s
     kind = draw(st.sampled_from(["default", "w", "w_r", "newsroom", "skip"])) if options else draw(st.sampled_from(["default", "newsroom"]))
     if kind == "newsroom":
         s["newsroom"] = True
